@@ -1,0 +1,6 @@
+//go:build !verif
+// +build !verif
+
+package batch
+
+func verifAt(point string, bg *batchGroup, index int) {}
